@@ -165,7 +165,10 @@ class CHECK(core.Check):
             "same conditions as `let me if` entry guard and `go` transition inside an auxiliary framer that is either plain "
             "or a moot framer run as a clone (`aux worker as w1`); clones: a moot framer cloned 2 or 3 times in sequence, "
             "`go hit if` on framer-relative operands (elapsed, recurred, `x of framer`) with different values per "
-            "instance, every instance compared with its own model run; history: one clause evaluated repeatedly by the same actor "
+            "instance, every instance compared with its own model run; every need FORM the Builder accepts and the model reaches "
+            "(framer state elapsed / recurred bare, `re`, `re me`, `re <framer>`; share need boolean / direct / indirect, with "
+            "and without field; `<tasker> is running|stopped|…|done`) x plain / `not` x alone / first / last of a conjunction "
+            "as an exhaustive table, and the spellings mixed into the random scripts; history: one clause evaluated repeatedly by the same actor "
             "instance while its state / goal shares are rewritten through update, change, .value, item assignment, "
             "create, delete+re-add and whole-record replacement via the Share.data setter, every evaluation compared "
             "with the condition on the current contents; ints beyond 2**53 (neighbouring values, goal direct "
@@ -298,7 +301,10 @@ class CHECK(core.Check):
             goal = rng.choice(["q:1/8", "q:1/4", "q:3/8", "i:0", "i:1", "i:2", "i:3", "q:1/2", "i:50"])
             g = {"lit": goal} if rng.random() < 0.8 else {"ref": rng.choice([2, 4, 5, 6])}
             return {"neg": neg, "kind": "c", "k": k, "cmp": rng.choice(CMPS), "goal": g,
-                    "tol": rng.choice(["i:0", "i:0", "q:1/8", "q:-1/8"])}
+                    "tol": rng.choice(["i:0", "i:0", "q:1/8", "q:-1/8"]), "re": rng.choice(self.RE)}
+        if clocks and rng.random() < 0.08:                 # clocks=True only in the `script` kind (framer main)
+            text = rng.choice(sorted(self.ATOMS))
+            return {"neg": neg, "kind": "a", "text": text, "truth": self.ATOMS[text]}
         k = rng.choice([2, 3, 4, 5, 6])
         g = {"lit": self._val(rng)} if rng.random() < 0.65 else {"ref": rng.choice([2, 3, 4, 5, 6])}
         tol = rng.choice(["i:0", "i:0", "q:1/2", "q:-1/2", "i:1", "q:1/8"])
@@ -307,6 +313,8 @@ class CHECK(core.Check):
     def _env(self, rng, clauses):
         env = {}
         for c in clauses:
+            if c["kind"] == "a":
+                continue
             ks = [c["k"]] + ([c["goal"]["ref"]] if c["kind"] == "c" and "ref" in c["goal"] else [])
             for k in ks:
                 if k >= 2 and str(k) not in env and rng.random() < 0.9:      # 10%: never assigned -> created 0.0
@@ -330,6 +338,8 @@ class CHECK(core.Check):
                     cs.append(self._fclause(rng, env))
             cs = cs[:nmax]
             for c in cs:                                                  # values for the non-f clauses
+                if c["kind"] == "a":
+                    continue
                 ks = [c["k"]] + ([c["goal"]["ref"]] if c["kind"] == "c" and "ref" in c["goal"] else [])
                 for k in ks:
                     if k >= 2 and str(k) not in env:
@@ -382,7 +392,7 @@ class CHECK(core.Check):
             goal = rng.choice(["q:1/4", "q:3/8", "q:1/2", "i:2", "i:3", "q:1/8", "i:1"])
             g = {"lit": goal} if rng.random() < 0.7 else {"ref": rng.choice([7, 8])}
             return {"neg": neg, "kind": "c", "k": k, "cmp": rng.choice([">=", ">=", ">", "==", "<=", "<", "!="]), "goal": g,
-                    "tol": rng.choice(["i:0", "i:0", "q:1/8"])}
+                    "tol": rng.choice(["i:0", "i:0", "q:1/8"]), "re": rng.choice([None, "re", "re me"])}
         if r < 0.45:
             return {"neg": neg, "kind": "b", "k": rng.choice([7, 8])}
         k = rng.choice([7, 8])
@@ -500,6 +510,8 @@ class CHECK(core.Check):
             yield {"kind": "check", "mode": "q", "state": s, "cmp": c, "goal": g, "tol": t}
         for c in self._big_table(tier):
             yield c
+        for c in self._form_table():
+            yield c
         # the decimal band-edge table (doubles): every pair state/goal/tol from small decimal sets, == and !=
         decs = [0.1, 0.2, 0.3, 0.4, 0.15, 0.05, 0.25, 0.5, 0.8, 1.1, 1.4]
         tols = [0.1, 0.05, 0.3, 0.25]
@@ -514,6 +526,48 @@ class CHECK(core.Check):
                 for st in sorted(edges):
                     for c in ("==", "!="):
                         yield {"kind": "check", "mode": "f", "state": X(st), "cmp": c, "goal": X(g), "tol": X(t)}
+
+    def _forms(self):
+        """one clause per need FORM that Builder.makeNeed accepts and this model reaches (its branches: `is` participle
+        -> status / done; `state re [framer]` -> framer need; bare elapsed / recurred (deprecated); share need without
+        comparison -> boolean, with a literal goal -> direct, with a path goal -> indirect; each with and without an
+        explicit field), each with the share values that make it true / false"""
+        out = []
+        for k in (0, 1):
+            for re_ in self.RE:
+                goal = "q:1/4" if k == 0 else "i:2"        # false at the 1st evaluation, true at the 2nd
+                out.append(({"kind": "c", "k": k, "cmp": ">=", "goal": {"lit": goal}, "tol": "i:0", "re": re_}, [{}]))
+            out.append(({"kind": "c", "k": k, "cmp": ">=", "goal": {"ref": 4}, "tol": "i:0", "re": "re me"},
+                        [{"4": "q:1/4" if k == 0 else "i:2"}]))
+        out.append(({"kind": "c", "k": 2, "cmp": "==", "goal": {"lit": "i:3"}, "tol": "i:0"}, [{"2": "i:3"}, {"2": "i:4"}]))
+        out.append(({"kind": "c", "k": 2, "cmp": "==", "goal": {"lit": "q:3/1"}, "tol": "q:1/2", "showtol": True},
+                    [{"2": "q:7/2"}, {"2": "i:4"}]))
+        out.append(({"kind": "c", "k": 5, "cmp": "<", "goal": {"lit": "s:b"}, "tol": "i:0"}, [{"5": "s:a"}, {"5": "s:c"}]))
+        out.append(({"kind": "c", "k": 2, "cmp": "!=", "goal": {"ref": 6}, "tol": "i:0"},
+                    [{"2": "i:1", "6": "i:2"}, {"2": "i:2", "6": "i:2"}]))
+        out.append(({"kind": "c", "k": 4, "cmp": ">", "goal": {"ref": 5}, "tol": "i:0"},
+                    [{"4": "i:5", "5": "i:2"}, {"4": "i:1", "5": "i:2"}]))
+        out.append(({"kind": "b", "k": 3}, [{"3": "s:x"}, {"3": "s:"}]))
+        out.append(({"kind": "b", "k": 5}, [{"5": "i:1"}, {"5": "i:0"}]))
+        for text in sorted(self.ATOMS):
+            out.append(({"kind": "a", "text": text, "truth": self.ATOMS[text]}, [{}]))
+        return out
+
+    def _form_table(self):
+        """need form x plain / `not` x alone / first / last of a conjunction (the partner is a true share need)"""
+        partner = {"neg": False, "kind": "c", "k": 6, "cmp": "==", "goal": {"lit": "i:7"}, "tol": "i:0"}
+        for form, envs in self._forms():
+            for env in envs:
+                for neg in (False, True):
+                    c = dict(form, neg=neg)
+                    for pos in ("alone", "first", "last"):
+                        if form["kind"] == "c" and form.get("k") == 2 and pos != "alone":
+                            pass
+                        cs = [c] if pos == "alone" else [c, partner] if pos == "first" else [partner, c]
+                        e = dict(env)
+                        if pos != "alone":
+                            e["6"] = "i:7"
+                        yield {"kind": "script", "mode": "q", "clauses": cs, "env": e, "period": "q:1/8", "limit": 3}
 
     def _big_table(self, tier):
         """conditions written without a tolerance clause (and with `+- 0`) on neighbouring ints beyond 2**53,
@@ -587,12 +641,15 @@ class CHECK(core.Check):
             return "E TypeError"
         return "T" if r is True else "F" if r is False else "? %r" % (r,)
 
+    # status / done needs of the framer itself while it runs (`<tasker> is <participle>`): text -> truth
+    ATOMS = {"main is running": True, "me is running": True, "main is stopped": False, "main is aborted": False,
+             "main is readied": False, "main is started": False, "main is done": False}
+    RE = [None, "re", "re me", "re main"]               # spellings of a framer-state need
+
     @staticmethod
-    def _state_text(k):
-        if k == 0:
-            return "elapsed"
-        if k == 1:
-            return "recurred"
+    def _state_text(k, re_=None):
+        if k in (0, 1):
+            return ("elapsed" if k == 0 else "recurred") + ((" " + re_) if re_ else "")
         if k in RELS:
             return "%s of framer" % RELS[k]
         path, field = REFS[k]
@@ -602,7 +659,10 @@ class CHECK(core.Check):
         parts = []
         for c in clauses:
             s = "not " if c["neg"] else ""
-            s += self._state_text(c["k"])
+            if c["kind"] == "a":
+                parts.append(s + c["text"])
+                continue
+            s += self._state_text(c["k"], c.get("re"))
             if c["kind"] == "c":
                 s += " " + c["cmp"] + " "
                 s += lit(c["goal"]["lit"]) if "lit" in c["goal"] else self._state_text(c["goal"]["ref"])
@@ -861,6 +921,8 @@ class CHECK(core.Check):
     @staticmethod
     def _clause_wire(c, m):
         s = "!" if c["neg"] else ""
+        if c["kind"] == "a":
+            return s + "b:%d" % (20 if c["truth"] else 21)
         if c["kind"] == "b":
             return s + "b:%d" % c["k"]
         g = ("L" + wire(c["goal"]["lit"], m)) if "lit" in c["goal"] else "R%d" % c["goal"]["ref"]
@@ -869,6 +931,8 @@ class CHECK(core.Check):
 
     @staticmethod
     def _env_wire(env, m):
+        env = dict(env)
+        env["20"], env["21"] = True, False                 # the two truth values of status / done atoms
         return ";".join("%s=%s" % (k, wire(v, m)) for k, v in sorted(env.items(), key=lambda kv: int(kv[0]))) or "-"
 
     def requests(self, case):
@@ -903,7 +967,9 @@ class CHECK(core.Check):
     def _spec_clause(self, c, env):
         def get(k):
             return py(env[str(k)]) if str(k) in env else 0.0
-        if c["kind"] == "b":
+        if c["kind"] == "a":
+            r = c["truth"]
+        elif c["kind"] == "b":
             r = spec_truthy(get(c["k"]))
         else:
             goal = py(c["goal"]["lit"]) if "lit" in c["goal"] else get(c["goal"]["ref"])
@@ -1044,7 +1110,11 @@ class CHECK(core.Check):
             c = case["clause"]
             k = "boolean" if c["kind"] == "b" else ("direct" if "lit" in c["goal"] else "indirect")
             return "acts/%s%s/%s" % ("not-" if c["neg"] else "", k, res)
-        clocks = any(c["k"] < 2 for c in case["clauses"])
+        clocks = any(c.get("k", 9) < 2 for c in case["clauses"])
+        if any(c["kind"] == "a" for c in case["clauses"]):
+            return "script/%dclauses/status-or-done/%s" % (len(case["clauses"]), res)
+        if any(c.get("re") for c in case["clauses"]):
+            return "script/%dclauses/clock-re/%s" % (len(case["clauses"]), res)
         return "script/%dclauses%s/%s" % (len(case["clauses"]), "/clock" if clocks else "", res)
 
     def shrink_candidates(self, case):
